@@ -1,78 +1,72 @@
-(* Props/C10.v — property theorems only. *)
+(* Props/C10.v — property theorems only (model follows /repo after fixes a910e27, 9415d49). *)
 From GE Require Import Lib.Bytes Lib.Sha256 Model.Tx Model.TxHash Model.SigValidate Proofs.SigValidate.
 Open Scope N_scope.
 
-(* what a valid verdict guarantees on every packet: each partial signature verifies, under its
-   key, the digest selected by vs_hash_and_script; the key's hex occurs in the disassembly of
-   the script returned with it; the previous transaction passed the coded id test *)
+(* valid_only_if, every conjunct of the DESIGN statement: a valid verdict implies the input
+   carries signatures, a supplied previous transaction hashes to the outpoint txid (v0 and
+   v2), and - provided the classified script is not a malformed OP_0 program, the one thing
+   address.GetScriptType does not look at - every partial signature verifies under its key
+   the digest computed from the script and amount of the output actually spent (redeem and
+   witness scripts being the committed pre-images) with the key's hex in the disassembly of
+   the script being satisfied *)
 Theorem C10_valid_only_if_partial :
   forall digest parse_pk der_ok verify hash160 v p i,
     vs_validate_input digest parse_pk der_ok verify hash160 v p i = VOk true ->
     exists inp, nth_error (svp_ins p) i = Some inp /\ svi_sigs inp <> [] /\
-      (forall s, In s (svi_sigs inp) -> sig_checked digest parse_pk der_ok verify hash160 v p i inp s) /\
-      prev_tx_checked v p i inp.
+      prev_tx_matches v p i inp /\
+      ((forall o, spent_output v p i inp = Some o -> wf_program (used_script inp o)) ->
+       forall s, In s (svi_sigs inp) -> sig_genuine digest parse_pk der_ok verify hash160 v p i inp s).
 Proof. exact valid_only_if_partial. Qed.
 Print Assumptions C10_valid_only_if_partial.
 
-(* the full statement, for packets consistent at input i *)
-Theorem C10_valid_only_if_consistent :
+(* with no hypothesis at all: the digest verified is the one vs_hash_and_script selects *)
+Theorem C10_valid_only_if_checked :
   forall digest parse_pk der_ok verify hash160 v p i,
     vs_validate_input digest parse_pk der_ok verify hash160 v p i = VOk true ->
-    forall inp, nth_error (svp_ins p) i = Some inp -> consistent hash160 v p i inp ->
-      svi_sigs inp <> [] /\
-      (forall s, In s (svi_sigs inp) -> sig_genuine digest parse_pk der_ok verify hash160 v p i inp s) /\
+    exists inp, nth_error (svp_ins p) i = Some inp /\ svi_sigs inp <> [] /\
+      (forall s, In s (svi_sigs inp) -> sig_checked digest parse_pk der_ok verify hash160 v p i inp s) /\
       prev_tx_matches v p i inp.
-Proof. exact valid_only_if_consistent. Qed.
-Print Assumptions C10_valid_only_if_consistent.
+Proof. exact valid_only_if_checked. Qed.
+Print Assumptions C10_valid_only_if_checked.
 
-Theorem C10_v2_prev_tx_matches :
-  forall digest parse_pk der_ok verify hash160 p i,
-    vs_validate_input digest parse_pk der_ok verify hash160 VsV2 p i = VOk true ->
-    exists inp, nth_error (svp_ins p) i = Some inp /\ prev_tx_matches VsV2 p i inp.
-Proof. exact v2_prev_tx_matches. Qed.
-Print Assumptions C10_v2_prev_tx_matches.
+Theorem C10_prev_tx_matches :
+  forall digest parse_pk der_ok verify hash160 v p i,
+    vs_validate_input digest parse_pk der_ok verify hash160 v p i = VOk true ->
+    exists inp, nth_error (svp_ins p) i = Some inp /\ prev_tx_matches v p i inp.
+Proof. exact prev_tx_matches_always. Qed.
+Print Assumptions C10_prev_tx_matches.
 
-(* the full statement is false of the code as written: four independent witnesses *)
+(* without the well-formed-program hypothesis the abstract statement fails (toy 1-byte key) *)
 Theorem C10_valid_only_if_refuted :
   ~ valid_only_if_statement toy_digest toy_parse_pk toy_der_ok toy_verify toy_hash160.
 Proof. exact valid_only_if_refuted. Qed.
 Print Assumptions C10_valid_only_if_refuted.
 
-Theorem C10_valid_only_if_refuted_prev_tx_v0 :
-  vs_validate_input toy_digest toy_parse_pk toy_der_ok toy_verify toy_hash160 VsV0 pkt1 0 = VOk true /\
-  forall inp, nth_error (svp_ins pkt1) 0 = Some inp -> ~ prev_tx_matches VsV0 pkt1 0 inp.
-Proof. exact valid_only_if_refuted_prev_tx_v0. Qed.
-Print Assumptions C10_valid_only_if_refuted_prev_tx_v0.
-
-Theorem C10_valid_only_if_refuted_amount :
-  vs_validate_input toy_digest toy_parse_pk toy_der_ok toy_verify toy_hash160 VsV2 pkt2 0 = VOk true /\
-  exists inp s, nth_error (svp_ins pkt2) 0 = Some inp /\ In s (svi_sigs inp) /\
-    prev_tx_matches VsV2 pkt2 0 inp /\
-    ~ sig_genuine toy_digest toy_parse_pk toy_der_ok toy_verify toy_hash160 VsV2 pkt2 0 inp s.
-Proof. exact valid_only_if_refuted_amount. Qed.
-Print Assumptions C10_valid_only_if_refuted_amount.
-
-Theorem C10_valid_only_if_refuted_redeem_script :
-  vs_validate_input toy_digest toy_parse_pk toy_der_ok toy_verify toy_hash160 VsV2 pkt3 0 = VOk true /\
-  exists inp s, nth_error (svp_ins pkt3) 0 = Some inp /\ In s (svi_sigs inp) /\
-    prev_tx_matches VsV2 pkt3 0 inp /\
-    ~ sig_genuine toy_digest toy_parse_pk toy_der_ok toy_verify toy_hash160 VsV2 pkt3 0 inp s.
-Proof. exact valid_only_if_refuted_redeem_script. Qed.
-Print Assumptions C10_valid_only_if_refuted_redeem_script.
-
-Theorem C10_valid_only_if_refuted_witness_script :
-  vs_validate_input toy_digest toy_parse_pk toy_der_ok toy_verify toy_hash160 VsV0 pkt4 0 = VOk true /\
-  vs_validate_input toy_digest toy_parse_pk toy_der_ok toy_verify toy_hash160 VsV2 pkt4 0 = VOk true /\
-  exists inp s, nth_error (svp_ins pkt4) 0 = Some inp /\ In s (svi_sigs inp) /\
-    ~ sig_genuine toy_digest toy_parse_pk toy_der_ok toy_verify toy_hash160 VsV2 pkt4 0 inp s.
-Proof. exact valid_only_if_refuted_witness_script. Qed.
-Print Assumptions C10_valid_only_if_refuted_witness_script.
+Theorem C10_valid_only_if_refuted_malformed_program :
+  vs_validate_input toy_digest toy_parse_pk toy_der_ok toy_verify toy_hash160 VsV0 pktM 0 = VOk true /\
+  vs_validate_input toy_digest toy_parse_pk toy_der_ok toy_verify toy_hash160 VsV2 pktM 0 = VOk true /\
+  exists inp s, nth_error (svp_ins pktM) 0 = Some inp /\ In s (svi_sigs inp) /\
+    ~ sig_genuine toy_digest toy_parse_pk toy_der_ok toy_verify toy_hash160 VsV2 pktM 0 inp s.
+Proof. exact valid_only_if_refuted_malformed_program. Qed.
+Print Assumptions C10_valid_only_if_refuted_malformed_program.
 
 Theorem C10_key_hex_match_not_bytewise :
   exists script asm ck, vs_disasm script = Some asm /\
     vs_is_infix (to_hex ck) asm = true /\ vs_is_infix ck script = false.
 Proof. exact key_hex_match_not_bytewise. Qed.
 Print Assumptions C10_key_hex_match_not_bytewise.
+
+(* the packets that refuted the statement before the fixes are rejected *)
+Theorem C10_former_witnesses_rejected :
+  vs_validate_input toy_digest toy_parse_pk toy_der_ok toy_verify toy_hash160 VsV0 pkt1 0 = VErr /\
+  vs_validate_input toy_digest toy_parse_pk toy_der_ok toy_verify toy_hash160 VsV0 pkt2 0 = VOk false /\
+  vs_validate_input toy_digest toy_parse_pk toy_der_ok toy_verify toy_hash160 VsV2 pkt2 0 = VOk false /\
+  vs_validate_input toy_digest toy_parse_pk toy_der_ok toy_verify toy_hash160 VsV0 pkt3 0 = VErr /\
+  vs_validate_input toy_digest toy_parse_pk toy_der_ok toy_verify toy_hash160 VsV2 pkt3 0 = VErr /\
+  vs_validate_input toy_digest toy_parse_pk toy_der_ok toy_verify toy_hash160 VsV0 pkt4 0 = VErr /\
+  vs_validate_input toy_digest toy_parse_pk toy_der_ok toy_verify toy_hash160 VsV2 pkt4 0 = VErr.
+Proof. exact former_witnesses_rejected. Qed.
+Print Assumptions C10_former_witnesses_rejected.
 
 (* ideal signatures: a signature produced for d0 only never validates once any other digest is selected *)
 Theorem C10_corruption_rejected :
@@ -83,28 +77,48 @@ Theorem C10_corruption_rejected :
       In (Some (mk_vsig (Some pub) sg)) (svi_sigs inp) ->
       parse_pk pub = Some ck -> rev sg = last :: rder ->
       (forall m, signed ck m (rev rder) -> m = d0) ->
-      (forall d scr, vs_hash_and_script digest v p i inp (n8 last) = VOk (d, scr) -> d <> d0) ->
+      (forall d scr, vs_hash_and_script digest hash160 v p i inp (n8 last) = VOk (d, scr) -> d <> d0) ->
       vs_validate_input digest parse_pk der_ok verify hash160 v p i <> VOk true.
 Proof. exact corruption_rejected. Qed.
 Print Assumptions C10_corruption_rejected.
 
-Theorem C10_v2_substituted_prev_rejected :
-  forall digest parse_pk der_ok verify hash160 p i inp prev,
-    nth_error (svp_ins p) i = Some inp -> svi_nonwit inp = Some prev ->
-    txid prev <> svi_prev_txid inp ->
-    vs_validate_input digest parse_pk der_ok verify hash160 VsV2 p i <> VOk true.
-Proof. exact v2_substituted_prev_rejected. Qed.
-Print Assumptions C10_v2_substituted_prev_rejected.
+Theorem C10_corruption_rejected_fields :
+  forall digest parse_pk der_ok verify hash160 (signed : bytes -> bytes -> bytes -> Prop),
+    (forall k m s, verify k m s = true -> signed k m s) ->
+    forall (same_covered : valgo -> N -> nat -> tx -> tx -> Prop),
+    (forall a t i c am ht a' t' i' c' am' ht',
+        digest a t i c am ht = digest a' t' i' c' am' ht' ->
+        a = a' /\ i = i' /\ c = c' /\ am = am' /\ ht = ht' /\ same_covered a ht i t t') ->
+    forall v p i inp pub sg ck last rder a0 t0 i0 c0 am0 ht0,
+      nth_error (svp_ins p) i = Some inp ->
+      In (Some (mk_vsig (Some pub) sg)) (svi_sigs inp) ->
+      parse_pk pub = Some ck -> rev sg = last :: rder ->
+      (forall m, signed ck m (rev rder) -> m = digest a0 t0 i0 c0 am0 ht0) ->
+      vs_validate_input digest parse_pk der_ok verify hash160 v p i = VOk true ->
+      exists scr, vs_hash_and_script digest hash160 v p i inp (n8 last) = VOk (digest a0 t0 i0 c0 am0 ht0, scr) /\
+        i = i0 /\ n8 last = ht0 /\ same_covered a0 ht0 i0 t0 (svp_tx p) /\
+        digest a0 t0 i0 c0 am0 ht0 = digest a0 (svp_tx p) i c0 am0 (n8 last).
+Proof. exact corruption_rejected_fields. Qed.
+Print Assumptions C10_corruption_rejected_fields.
 
-Theorem C10_v0_prev_below_outpoint_rejected :
-  forall digest parse_pk der_ok verify hash160 p i inp prev ti,
+(* a substituted previous transaction with another id, lower or higher, is rejected (v0 and v2) *)
+Theorem C10_substituted_prev_rejected :
+  forall digest parse_pk der_ok verify hash160 v p i inp prev h idx,
     nth_error (svp_ins p) i = Some inp -> svi_nonwit inp = Some prev ->
-    nth_error (t_ins (svp_tx p)) i = Some ti -> vs_compare (in_hash ti) (txid prev) = Gt ->
-    vs_validate_input digest parse_pk der_ok verify hash160 VsV0 p i <> VOk true.
-Proof. exact v0_prev_below_outpoint_rejected. Qed.
-Print Assumptions C10_v0_prev_below_outpoint_rejected.
+    outpoint_of v p i inp = Some (h, idx) -> txid prev <> h ->
+    vs_validate_input digest parse_pk der_ok verify hash160 v p i <> VOk true.
+Proof. exact substituted_prev_rejected. Qed.
+Print Assumptions C10_substituted_prev_rejected.
 
-(* panics *)
+Theorem C10_validate_all_only_if :
+  forall digest parse_pk der_ok verify hash160 v p,
+    vs_validate_all digest parse_pk der_ok verify hash160 v p = VOk true ->
+    forall j, (j < length (svp_ins p))%nat ->
+      vs_validate_input digest parse_pk der_ok verify hash160 v p j = VOk true.
+Proof. exact validate_all_only_if. Qed.
+Print Assumptions C10_validate_all_only_if.
+
+(* panics: only address.GetScriptType's script[0] / script[2:] remain *)
 Theorem C10_no_panic_partial :
   forall digest parse_pk der_ok verify hash160 v p i,
     accepted parse_pk p -> (i < length (svp_ins p))%nat ->
@@ -117,3 +131,13 @@ Theorem C10_no_panic_on_accepted_packets_refuted :
   ~ no_panic_statement toy_digest toy_parse_pk toy_der_ok toy_verify toy_hash160.
 Proof. exact no_panic_statement_refuted. Qed.
 Print Assumptions C10_no_panic_on_accepted_packets_refuted.
+
+Theorem C10_former_panics_are_errors :
+  vs_validate_input toy_digest toy_parse_pk toy_der_ok toy_verify toy_hash160 VsV0 pkt5 0 = VErr /\
+  vs_validate_input toy_digest toy_parse_pk toy_der_ok toy_verify toy_hash160 VsV2 pkt5 0 = VErr /\
+  vs_validate_input toy_digest toy_parse_pk toy_der_ok toy_verify toy_hash160 VsV0 pkt6 0 = VOk false /\
+  vs_validate_input toy_digest toy_parse_pk toy_der_ok toy_verify toy_hash160 VsV2 pkt6 0 = VOk false /\
+  vs_validate_input toy_digest toy_parse_pk toy_der_ok toy_verify toy_hash160 VsV2
+    (mk_vpacket (tx_of [in_of [] 0] []) [mk_vinput None None None None [Some (mk_vsig (Some kA) [])] [] 0]) 0 = VErr.
+Proof. exact former_panics_are_errors. Qed.
+Print Assumptions C10_former_panics_are_errors.
